@@ -65,7 +65,7 @@ def classify_native(op, rel, pre, out_rel, conf_rel=None):
 class C16(H.Check):
     id = 'C16'
     title = "Only the tool's own files in the output directory are ever written or removed"
-    required_covers = ('run:cli', 'run:build', 'run:init', 'cache-hit', 'no-commands', 'foreign:reserved-name', 'foreign:other-name', 'cleanup-removed', 'no-commands-after-generation')
+    required_covers = ('run:cli', 'run:build', 'run:init', 'cache-hit', 'no-commands', 'foreign:reserved-name', 'foreign:other-name', 'cleanup-removed', 'no-commands-after-generation', 'crafted-cache')
 
     LAYOUTS = {
         'default': ('../src/generated', '/w/app/src/generated', True),
@@ -105,6 +105,10 @@ class C16(H.Check):
             yield ('%s/nocmd11' % path, dict(kind='nocmd', path=path, n=11))
         for v in range(5):
             yield ('init/%d' % v, dict(kind='init', v=v))
+        # a .typecache found in the output directory is input like any other file: whatever it says, only reserved names are touched
+        for path in ('cli', 'build'):
+            for n in ((6, 9) if q else (3, 6, 9, 12)):
+                yield ('%s/crafted-cache/%d' % (path, n), dict(kind='crafted', path=path, n=n))
         # the unit that decides what gets deleted, driven directly (cheap per path, so longer names are affordable)
         for n in ((5, 8, 9, 10, 11, 13) if q else tuple(range(1, 19))):
             yield ('unit/cleanup/%d' % n, dict(kind='unit', n=n))
@@ -228,6 +232,8 @@ class C16(H.Check):
 
             if kind == 'init':
                 return self.run_init(ctx, e, I, p, mode, viz, wit, steps)
+            if kind == 'crafted':
+                return self.run_crafted(ctx, e, I, p, mode, viz, tg, steps)
             path = p['path']
             e.cover('run:' + path)
             base = 'C16/%s' % path
@@ -266,6 +272,31 @@ class C16(H.Check):
 
         eng.explore(body, end)
         ctx.finish_engine(eng)
+
+    def run_crafted(self, ctx, e, I, p, mode, viz, tg, steps):
+        """the output directory holds a cache record that does not match and whose `files` list names a foreign file (symbolic name), a path
+        leaving the directory and a project source"""
+        path = p['path']
+        e.cover('run:' + path)
+        fname = sym.sym_str('f', p['n'], NAME_ALPHABET)
+        e.assume(z_not(reserved_cond(fname)))
+        rec = X.J.jobj([('version', X.J.jnum(1)), ('commands_hash', X.J.jstr(Str('0'))), ('structs_hash', X.J.jstr(Str('0'))), ('config_hash', X.J.jstr(Str('0'))),
+                        ('events_hash', X.J.jstr(Str('0'))), ('combined_hash', X.J.jstr(Str('stale'))),
+                        ('files', X.J.jarr([X.J.jstr(fname), X.J.jstr(Str('../lib/api.ts')), X.J.jstr(Str('../../src-tauri/src/lib.rs')), X.J.jstr(Str('types.ts'))]))])
+        pre = [('README.md', Str('# hand written\n')), (fname, Str('precious user data\n')), ('.typecache', X.J.json_doc_text(rec))]
+        box = X.Box(I, PL.Project({'src/lib.rs': SRC_CMD}, {}, {}), typegen=tg, pre_out=pre)
+        box.w.add_dir('/w/app/src/lib')
+        box.w.add_file('/w/app/src/lib/api.ts', Str('export const x = 1;\n'))
+        e.cover('crafted-cache')
+
+        def wit(m):
+            return dict(kind='crafted', path=path, mode=mode, viz=viz, typegen=tg, foreign=PL.concretize_str(m, fname), layout='default')
+        for k in range(2):
+            r = box.run(path)
+            self.check_effects(ctx, e, box, box.effects_since(), 'C16/%s' % path, wit)
+            if not X.is_ok(r):
+                break
+        return ('ok', len(box.w.log))
 
     def run_init(self, ctx, e, I, p, mode, viz, wit, steps):
         v = p['v']
@@ -319,6 +350,18 @@ class C16(H.Check):
             return self.replay_init(w, cls)
         if w['kind'] == 'unit':
             return self.replay_unit(w, cls)
+        if w['kind'] == 'crafted':
+            rec = {'version': 1, 'commands_hash': '0', 'structs_hash': '0', 'config_hash': '0', 'events_hash': '0', 'combined_hash': 'stale',
+                   'files': [w['foreign'], '../lib/api.ts', '../../src-tauri/src/lib.rs', 'types.ts']}
+            steps = X.project_steps({'src/lib.rs': SRC_CMD}, w['typegen'], pre_out=[('README.md', '# hand written\n'), (w['foreign'], 'precious user data\n'),
+                                                                                   ('.typecache', X.json.dumps(rec))])
+            steps += [('write', 'app/src/lib/api.ts', 'export const x = 1;\n')]
+            steps += [('build',) if w['path'] == 'build' else ('cli', [])] * 2
+            for r in X.native_history(steps):
+                for op, rel in r['effects']:
+                    if classify_native(op, rel, r['pre'], 'app/src/generated') == cls:
+                        return True
+            return False
         pre = [('README.md', '# hand written\n'), ('types.ts.bak', 'old'), ('mytypes.ts', 'export type Mine = 1;\n'), ('generated_assets', None)] if out_exists else []
         if w['kind'] == 'nocmd':
             pre += [('types.ts', 'export {};\n'), ('commands.ts', 'export {};\n'), ('index.ts', 'export {};\n')]
